@@ -532,12 +532,12 @@ std::string enumerate_no_information(Ctx& c, unsigned t, unsigned n, const std::
 // Sampling counterpart of the enumeration, independent of how split() consumes its random draws (rejection sampling,
 // wider draws, redraws ...): for a fixed secret byte the t-1 share values must be uniform over all 256^(t-1) combinations.
 // The interposed random_device is a deterministic uniform stream, so the outcome is a pure function of the code.  Only an
-// EMPTY bin is judged: with >= 64 expected hits per bin an empty bin has probability < e^-64 under uniformity.
+// EMPTY bin is judged: with >= 32 expected hits per bin an empty bin has probability < e^-32 under uniformity (x 65536 bins: < 1e-9).
 std::string sample_no_information(Ctx& c, unsigned t, unsigned n, unsigned secret_value, std::uint64_t& splits) {
     vclock::rng_clear_queue();
     vclock::rng_seed(0xC10A + t * 131 + secret_value);
     const std::size_t bins = t == 2 ? 256u : 65536u;
-    const std::size_t nsplits = bins * 64 / 32;   // 32 byte positions per split, 64 expected hits per bin
+    const std::size_t nsplits = bins * (t == 2 ? 64 : 32) / 32;   // 32 byte positions per split; 64 (t=2) / 32 (t=3) expected hits per bin
     Secret secret;
     secret.fill(static_cast<std::uint8_t>(secret_value));
     std::vector<std::uint32_t> hist(bins, 0);
@@ -550,8 +550,8 @@ std::string sample_no_information(Ctx& c, unsigned t, unsigned n, unsigned secre
     for (std::size_t v = 0; v < bins; ++v) {
         if (hist[v] == 0) {
             char buf[300];
-            if (t == 2) std::snprintf(buf, sizeof buf, "threshold 2, secret byte 0x%02x: over %zu splits the first share never takes the value 0x%02zx (64 expected)", secret_value, nsplits, v);
-            else std::snprintf(buf, sizeof buf, "threshold 3, secret byte 0x%02x: over %zu splits the first two shares never take the values (0x%02zx,0x%02zx) (64 expected)", secret_value, nsplits, v >> 8, v & 0xFF);
+            if (t == 2) std::snprintf(buf, sizeof buf, "threshold 2, secret byte 0x%02x: over %zu splits the first share never takes the value 0x%02zx (%u expected)", secret_value, nsplits, v, 64u);
+            else std::snprintf(buf, sizeof buf, "threshold 3, secret byte 0x%02x: over %zu splits the first two shares never take the values (0x%02zx,0x%02zx) (%u expected)", secret_value, nsplits, v >> 8, v & 0xFF, 32u);
             c.note("share-value sampling t=%u n=%u secret_byte=0x%02x", t, n, secret_value);
             c.fail("C10:share-values-not-uniform", std::string(buf) + ": t-1 shares exclude some secrets, so fewer than t shares carry information about the secret");
         }
